@@ -35,7 +35,7 @@ fn plant(srv: &Srv) -> Tree {
     let root = &srv.root;
     let files = ["outside.txt", "srv/a.txt", "srv/sub/b.txt", "srv-evil/secret.txt", "srv-evil/a.txt", "up/old.txt", "a.txt", "sub/b.txt"];
     let mut t = Tree::new();
-    for d in ["/srv/", "/srv/sub/", "/srv-evil/", "/up/", "/sub/"] {
+    for d in ["/srv/", "/srv/sub/", "/srv-evil/", "/up/", "/sub/", "/cwd/"] {
         t.insert(d.to_string(), vec![]);
     }
     for f in files {
@@ -75,6 +75,8 @@ pub fn cell(spec: &Value) -> Value {
     };
     let toks = tokens(&srv);
     let initial = plant(&srv);
+    // the server's working directory lies inside the observed tree (a file written relative to the cwd is seen)
+    let _ = std::env::set_current_dir(format!("{}/cwd", srv.root));
     let prefix: Vec<usize> = spec["prefix"].as_array().unwrap().iter().map(|x| x.as_u64().unwrap() as usize).collect();
     let more = spec["more"].as_u64().unwrap() as usize;
     let allowed: Vec<usize> = match spec["allowed"].as_array() {
@@ -85,7 +87,7 @@ pub fn cell(spec: &Value) -> Value {
     // with few tokens)
     let seg_family = spec["family"] == "segments";
     let segments: Vec<String> = vec!["/".into(), "\\".into(), "../".into(), "..\\".into(), "./".into(), "sub/".into(), "sub\\".into()];
-    let leaves: Vec<String> = vec!["a.txt".into(), "b.txt".into(), "outside.txt".into(), "new.txt".into(), "secret.txt".into(), "..".into(), "srv-evil/secret.txt".into(), "up/old.txt".into()];
+    let leaves: Vec<String> = vec!["a.txt".into(), "b.txt".into(), "outside.txt".into(), "new.txt".into(), "secret.txt".into(), "..".into(), "srv-evil/secret.txt".into(), "up/old.txt".into(), "newdir/x.txt".into()];
     let mut seg_names: Vec<String> = vec![];
     if seg_family {
         let first = spec["first_seg"].as_u64().unwrap() as usize;
@@ -188,7 +190,11 @@ pub fn cell(spec: &Value) -> Value {
                     let d = &diff[0];
                     let path = d.split_once(' ').map(|x| x.1).unwrap_or("");
                     (d.starts_with("created ") || d.starts_with("modified ")) && path.starts_with(&format!("{rel_recv}/")) && !path.ends_with('/')
-                };
+                } || (write && diff.iter().all(|d| {
+                    // directories created INSIDE the receive directory on the way to the target are not forbidden
+                    let path = d.split_once(' ').map(|x| x.1).unwrap_or("");
+                    d.starts_with("created ") && path.starts_with(&format!("{rel_recv}/"))
+                }) && diff.iter().filter(|d| !d.ends_with('/')).count() <= 1);
                 if !legal {
                     viol.push(("fs-effect-outside".into(), format!("{} {:?} changed the tree: {:?} (only a single create/modify inside {} is allowed{})", if write { "WRQ" } else { "RRQ" }, name, diff, srv.recv_dir, if write { "" } else { ", and nothing at all for a read" })));
                 } else if escapes {
@@ -268,7 +274,7 @@ pub fn check(tier: Tier) -> Outcome {
     let res = run_cells("c03", cells, &crate::pool_opts(tier));
     let mut out = Outcome::new("C03", "model_checking");
     out.absorb(res, n);
-    out.rule = format!("every filename that is a concatenation of <= {depth} tokens over an {NTOK}-token path alphabet ('/', '\\', '..', '.', existing file, subdirectory, file in it, new name, a file one level up, a sibling directory sharing the served directory's name as prefix, absolute sandbox and served paths, empty, '...', '..\\', '%2e%2e', 'up', 'secret.txt'){}, plus every name made of <= 3 (thorough 4) separator-carrying segments ('/', '\\', '../', '..\\', './', 'sub/', 'sub\\') followed by one of 8 leaves; each as RRQ and as WRQ, against the real Server on loopback in {} configurations (shared/distinct dirs x overwrite{}); each accepted request is carried to its end. Oracle: served bytes identify a file inside the send directory (every file's content is its own path); tree snapshot before/after shows at most one create/modify inside the receive directory; names a lexical reference resolver puts outside are answered with ERROR and have no effect. non-trivial = requests that transferred data. states = requests, transitions = datagram exchanges.", if tier == Tier::Thorough { ", plus <= 6 tokens over the separator/dot sub-alphabet" } else { "" }, cfgs.len(), if tier == Tier::Thorough { ", plus single-port" } else { "" });
+    out.rule = format!("every filename that is a concatenation of <= {depth} tokens over an {NTOK}-token path alphabet ('/', '\\', '..', '.', existing file, subdirectory, file in it, new name, a file one level up, a sibling directory sharing the served directory's name as prefix, absolute sandbox and served paths, empty, '...', '..\\', '%2e%2e', 'up', 'secret.txt'){}, plus every name made of <= 3 (thorough 4) separator-carrying segments ('/', '\\', '../', '..\\', './', 'sub/', 'sub\\') followed by one of 9 leaves (one with a missing parent directory); each as RRQ and as WRQ, against the real Server on loopback in {} configurations (shared/distinct dirs x overwrite{}); each accepted request is carried to its end. Oracle: served bytes identify a file inside the send directory (every file's content is its own path); tree snapshot before/after shows at most one create/modify inside the receive directory; names a lexical reference resolver puts outside are answered with ERROR and have no effect. non-trivial = requests that transferred data. states = requests, transitions = datagram exchanges.", if tier == Tier::Thorough { ", plus <= 6 tokens over the separator/dot sub-alphabet" } else { "" }, cfgs.len(), if tier == Tier::Thorough { ", plus single-port" } else { "" });
     out.assumptions = vec!["Linux path semantics; no symlinks planted inside the served directories".into(), "one server per configuration per shard process is reused across requests (the tree is restored after every request)".into()];
     out
 }
